@@ -12,9 +12,9 @@ cannot tell them apart.  With `inner_product(x, y) = Σ x_i conj(y_i) = yᴴx` t
 * `BiCGStab.halfAsFound / fullAsFound / bodyAsFound`: bicgstab.hpp:209-235 with the argument order of the library text BEFORE 5b0cc60
   (`alpha = rho1 / inner_product(*rh, *v)`, `omega = inner_product(*t, *s) / inner_product(*t, *t)`); `BiCGStab.half / full / body`
   (`Model/SolverBiCGStab.lean`) carry the order of the code as it is now;
-* `IDRs.omegaFnC`: `omega(t, s)` of idrs.hpp:474-489 as it is now (`ts = inner_product(s, t)`), with `math::norm` of a complex scalar as
-  a parameter `absC`; `IDRs.omegaFn` (`Model/SolverIDRs.lean`) has the argument order before f9a42d3 (`inner_product(t, s)`) —
-  the same value at every carrier with a symmetric inner product, which is all the real-valued ops and theorems use;
+* `IDRs.omegaFnC`: `omega(t, s)` of idrs.hpp:474-489 as it is now (`ts = inner_product(s, t)`, the text of `IDRs.omegaFn` in
+  `Model/SolverIDRs.lean`) with `math::norm` of a complex scalar as a parameter `absC`; `IDRs.omegaFnAsFound`: the argument order
+  before f9a42d3 (`ts = inner_product(t, s)`) — the same value at every carrier with a symmetric inner product;
 * `BiCGStabL.gramC` (bicgstabl.hpp:303-315 as it is now: `MZa(i,j) = adjoint(MZa(j,i))`, `i < j`) and `BiCGStabL.gramAsFound` (the
   chained assignment `MZa(i,j) = MZa(j,i) = adjoint(MZa(j,i))` before 10c4abf); at `conj = id` both are `BiCGStabL.gram`;
 * an order on the Gaussian rationals `GQ` (by modulus, as amgcl declares it for `std::complex`) so that the generic models run at `GQ`.
@@ -95,6 +95,15 @@ def omegaFnC (absC : K → K) (ip : Vec K → Vec K → K) (sqrt : K → K) (ome
   let rho := absC (ts / (normT * normS))                   -- scalar_type rho = math::norm(ts / (norm_t * norm_s));
   let om := ts / (normT * normT)                           -- coef_type om = ts / (norm_t * norm_t);
   if rho < omega then om * (omega / rho) else om           -- if (rho < prm.omega) om *= prm.omega/rho;
+
+/-- `omega(t, s)` before f9a42d3: `ts = inner_product(t, s)` -/
+def omegaFnAsFound (ip : Vec K → Vec K → K) (sqrt : K → K) (omega : K) (t s : Vec K) : K :=
+  let normT := nrmA ip sqrt t
+  let normS := nrmA ip sqrt s
+  let ts := ip t s                                         -- coef_type ts = inner_product(t, s);   (as found)
+  let rho := absK (ts / (normT * normS))
+  let om := ts / (normT * normT)
+  if rho < omega then om * (omega / rho) else om
 
 end IDRs
 
